@@ -192,7 +192,17 @@ def decl_module(d, ops_wanted):
         for fmt, parse_t, parse_i, argp in (
                 ("json", "serde_json::from_str::<TT>(&doc)", "serde_json::from_str::<Inner>(&doc)", "let doc = <String as Arg>::parse(arg);"),
                 ("ron", "ron::from_str::<TT>(&format!(\"%s({})\", doc))" % sername, "ron::from_str::<Inner>(&doc)", "let doc = <String as Arg>::parse(arg);"),
-                ("mp", "rmp_serde::from_slice::<TT>(&doc)", "rmp_serde::from_slice::<Inner>(&doc)", "let doc = bytes_arg(arg);")):
+                ("mp", "rmp_serde::from_slice::<TT>(&doc)", "rmp_serde::from_slice::<Inner>(&doc)", "let doc = bytes_arg(arg);"),
+                # serde's own value deserializers: the value itself, and a one-element sequence (formats
+                # built on forward_to_deserialize_any! hand a newtype struct to visit_seq / visit_<prim>)
+                ("self", "<TT as serde::Deserialize>::deserialize(serde::de::IntoDeserializer::<serde::de::value::Error>::into_deserializer(doc.clone()))",
+                 "<Inner as serde::Deserialize>::deserialize(serde::de::IntoDeserializer::<serde::de::value::Error>::into_deserializer(doc.clone()))",
+                 "let doc = <Inner as Arg>::parse(arg);"),
+                ("seq1", "<TT as serde::Deserialize>::deserialize(serde::de::value::SeqDeserializer::<_, serde::de::value::Error>::new(std::iter::once(doc.clone())))",
+                 "<Inner as serde::Deserialize>::deserialize(serde::de::value::SeqDeserializer::<_, serde::de::value::Error>::new(std::iter::once(doc.clone())))",
+                 "let doc = <Inner as Arg>::parse(arg);")):
+            if fmt in ("self", "seq1") and inner not in INT_TYPES and inner not in FLOAT_TYPES and inner != "String":
+                continue
             arms.append('"de_%s" => guard(|| { %s let r = %s; let i = %s; '
                         'let exp = match &i { Ok(x) => { let x = x.clone(); %s }, Err(_) => "de_err".to_string() }; '
                         'let oracle = match &i { Ok(x) => x.show(), Err(_) => "none".to_string() }; '
